@@ -54,6 +54,12 @@ func c20Doc(r *rand.Rand) (dom.Container, string) {
 	if r.Intn(2) == 0 {
 		m["l"] = []any{map[string]any{}, []any{}, 1}
 	}
+	composite := r.Intn(4) == 0
+	if composite {
+		// a leaf may hold any Go value, also a composite one the DOM does not interpret (a YAML-style map with non-string
+		// keys, holding a slice of such maps): reading the document reads that value too, it does not rewrite it
+		m["opaque"] = map[any]any{"k": []any{map[any]any{1: "x"}, map[any]any{true: []any{"y"}}}, 2: "two"}
+	}
 	switch r.Intn(7) {
 	case 0:
 		return anyToContainer(m), "builder"
@@ -121,6 +127,14 @@ func c20GenRead(r *rand.Rand, d dom.Container) c20Read {
 	case 5:
 		return c20Read{"AsMap()", "RAsMap", func(d dom.Container) string { return "ODoc " + gNode(normGeneric(d.AsMap())) }}
 	case 6:
+		if hasOpaque(plain) { // (the harness's plain view cannot rebuild an uninterpreted leaf value: Serialize instead)
+			return c20Read{"Serialize(json) of a document with a composite leaf value", "RAsMap", func(d dom.Container) string {
+				var b bytes.Buffer
+				_ = d.Serialize(&b, dom.DefaultNodeEncoderFn, dom.DefaultJsonEncoder)
+				_ = d.Serialize(&b, dom.DefaultNodeEncoderFn, dom.DefaultYamlEncoder)
+				return "ODoc " + gNode(normGeneric(d.AsMap()))
+			}}
+		}
 		other := deepCopy(plain)
 		if r.Intn(2) == 0 {
 			other = mutateVal(r, other, defaultOpts())
@@ -554,4 +568,24 @@ func init() {
 		},
 		Extra: c20Concurrent,
 	})
+}
+
+func hasOpaque(v any) bool {
+	switch x := v.(type) {
+	case Opaque:
+		return true
+	case map[string]any:
+		for _, c := range x {
+			if hasOpaque(c) {
+				return true
+			}
+		}
+	case []any:
+		for _, c := range x {
+			if hasOpaque(c) {
+				return true
+			}
+		}
+	}
+	return false
 }
